@@ -142,11 +142,16 @@ def parse_spec(spec, formatter_cls):
         raise ExtractError('alignment %r outside the model' % align)
     if ty not in ('s', 'd', 'f'):
         raise ExtractError('format type %r outside the model' % ty)
-    if ty == 's' and prec:
-        raise ExtractError('precision on a string field is outside the model')
+    if ty in ('s', 'd') and prec is not None:
+        raise ExtractError('precision on a string or integer field is outside the model')
     return {'fill': fill if fill is not None else ' ', 'align': {None: 'dflt', '<': 'left', '>': 'right'}[align],
             'width': int(width) if width else 0, 'prec': int(prec) if prec else (6 if ty == 'f' else 0),
             'ty': ty, 'trunc': trunc}
+
+
+def raw_specs(fmt):
+    """the format-spec strings of the replacement fields of a format string, as written in the source"""
+    return [spec for lit, field, spec, conv in string.Formatter().parse(fmt) if field is not None]
 
 
 def parse_format(fmt, names, formatter_cls):
@@ -317,6 +322,21 @@ def extract(repo):
         if isinstance(node, ast.Call) and isinstance(node.func, ast.Attribute) and node.func.attr == 'find' \
                 and len(node.args) == 2 and isinstance(node.args[1], ast.Constant):
             dot_from = node.args[1].value
+    # has_vel = first_line[a:].count('.') == 6   (a = 0 when the whole line is counted)
+    count_from = None
+    for node in ast.walk(gr):
+        if isinstance(node, ast.Call) and isinstance(node.func, ast.Attribute) and node.func.attr == 'count' \
+                and len(node.args) == 1 and isinstance(node.args[0], ast.Constant) and node.args[0].value == '.':
+            v = node.func.value
+            if isinstance(v, ast.Name):
+                count_from = 0
+            elif isinstance(v, ast.Subscript) and isinstance(v.slice, ast.Slice) and v.slice.upper is None \
+                    and v.slice.step is None and isinstance(v.slice.lower, ast.Constant) \
+                    and isinstance(v.slice.lower.value, int) and v.slice.lower.value >= 0:
+                count_from = v.slice.lower.value
+    if count_from is None:
+        raise ExtractError("read_gro: the test `....count('.') == 6` for velocities was not found")
+    res['groCountFrom'] = count_from
     if vel_names is None or dot_from is None:
         raise ExtractError('read_gro velocity names / dot search start not found')
     for n in res['groNames'] + vel_names:
@@ -324,6 +344,69 @@ def extract(repo):
             raise ExtractError('unknown GRO reader field %r' % n)
     res['groVelNames'] = vel_names
     res['groDotFrom'] = dot_from
+    res['raw'] = {'atom': raw_specs(atom_fmt), 'ter': raw_specs(ter_fmt), 'conect': raw_specs(number_fmt)[0],
+                  'gro': raw_specs(gro_fmt), 'groFmts': [(p, raw_specs(gro_format_for(p))) for p in GRO_PRECISIONS]}
+    # ---------------- the rest of PDBParser: records bound to _skip, the cryst1 column table, the MODEL columns
+    cls = [n for n in ast.walk(tree) if isinstance(n, ast.ClassDef) and n.name == 'PDBParser']
+    if len(cls) != 1:
+        raise ExtractError('class PDBParser not found')
+    skips = []
+    for sub in cls[0].body:
+        if isinstance(sub, ast.Assign) and len(sub.targets) == 1 and isinstance(sub.targets[0], ast.Name) \
+                and isinstance(sub.value, ast.Name) and sub.value.id == '_skip':
+            skips.append(sub.targets[0].id)
+    if not skips:
+        raise ExtractError('no record bound to _skip in PDBParser')
+    res['pdbSkipRecords'] = skips
+    # what dispatch() reaches for the record names the model gives a meaning
+    import vermouth.pdb.pdb as _pm
+    P = _pm.PDBParser
+    same = lambda a, b: getattr(a, '__func__', a) is getattr(b, '__func__', b)
+    if not (same(P.atom, P._atom) and same(P.hetatm, P._atom) and same(P.ter, P._finish_molecule)
+            and same(P.end, P._finish_molecule) and same(P.endmdl, P._finish_molecule)
+            and all(same(getattr(P, n), P._skip) for n in skips)):
+        raise ExtractError('PDBParser record table differs from the model (atom/hetatm/ter/end/endmdl/_skip)')
+    cr = _func(tree, 'cryst1', 'PDBParser')
+    cfl = _resolved_assign(tree, cr, 'fields')
+    if not isinstance(cfl, (ast.List, ast.Tuple)):
+        raise ExtractError('PDBParser.cryst1 fields table not found')
+    cfields = []
+    for t in cfl.elts:
+        if not (isinstance(t, ast.Tuple) and len(t.elts) == 3 and isinstance(t.elts[0], ast.Constant)
+                and isinstance(t.elts[1], ast.Name) and isinstance(t.elts[2], ast.Constant)):
+            raise ExtractError('unexpected entry in PDBParser.cryst1 fields: ' + ast.unparse(t))
+        if t.elts[1].id not in ('int', 'str', 'float'):
+            raise ExtractError('unknown reader type %r' % t.elts[1].id)
+        cfields.append((t.elts[0].value, t.elts[1].id, int(t.elts[2].value)))
+    res['crystFields'] = cfields
+    md = _func(tree, 'model', 'PDBParser')
+    msl = [n for n in ast.walk(md) if isinstance(n, ast.Call) and isinstance(n.func, ast.Name) and n.func.id == 'int'
+           and len(n.args) == 1 and isinstance(n.args[0], ast.Subscript) and isinstance(n.args[0].slice, ast.Slice)
+           and isinstance(n.args[0].slice.lower, ast.Constant) and isinstance(n.args[0].slice.upper, ast.Constant)]
+    if len(msl) != 1:
+        raise ExtractError('int(line[a:b]) of PDBParser.model not found')
+    res['modelStart'] = msl[0].args[0].slice.lower.value
+    res['modelStop'] = msl[0].args[0].slice.upper.value
+    # ---------------- write_gro: the velocity format string for every precision
+    def gro_vel_format_for(precision):
+        ns = dict(consts)
+        ns['precision'] = precision
+        asg = sorted(_assigns(gw, 'vel_format_string'), key=lambda a: a.lineno)
+        if not asg:
+            raise ExtractError('vel_format_string of write_gro not found')
+        for a in asg:
+            exec(compile(ast.Module(body=[a], type_ignores=[]), '<gro>', 'exec'), {'__builtins__': {}}, ns)
+        if not isinstance(ns.get('vel_format_string'), str):
+            raise ExtractError('vel_format_string of write_gro is not a string')
+        return ns['vel_format_string']
+    vel_names = None
+    for first, names in _format_calls(gw):
+        if isinstance(first, ast.Name) and first.id == 'vel_format_string':
+            vel_names = names
+    if vel_names is None:
+        raise ExtractError('velocity formatter call not found in write_gro')
+    res['groVelFmts'] = [(p, parse_format(gro_vel_format_for(p), vel_names, TruncFormatter)) for p in GRO_PRECISIONS]
+    res['gro_vel_strings'] = {p: gro_vel_format_for(p) for p in GRO_PRECISIONS}
     res['strings'] = {'atom': atom_fmt, 'ter': ter_fmt, 'number': number_fmt, 'conect_prefix': conect_prefix,
                       'gro': gro_fmt}
     return res
@@ -389,6 +472,10 @@ def lchars(s):
     return '[' + ', '.join(lchar(c) for c in s) + ']'
 
 
+def llist(strs):
+    return '[' + ', '.join(lchars(x) for x in strs) + ']'
+
+
 def lspec(sp):
     return '⟨%s, .%s, %d, %d, .%s, %s⟩' % (lchar(sp['fill']), sp['align'], sp['width'], sp['prec'], sp['ty'],
                                             'true' if sp['trunc'] else 'false')
@@ -402,6 +489,35 @@ def lsegs(segs):
         else:
             out.append('.fld .%s %s' % (s[1], lspec(s[2])))
     return '[\n    ' + ',\n    '.join(out) + ']'
+
+
+def render_lean_x(res):
+    cf = ',\n    '.join('⟨%s, .%s, %d⟩' % (lchars(n), t, w) for n, t, w in res['crystFields'])
+    return '''import VermouthModel.C16_Full
+import Generated.C16Layout
+/-! GENERATED by harness/c16_extract.py from the repository source on every run of the C16 check.
+Do not edit: the record names PDBParser binds to `_skip`, the column table of `PDBParser.cryst1`, the columns
+`PDBParser.model` reads the model number from, and the velocity format strings of `write_gro`. -/
+namespace C16.Layout
+open C16
+
+def pdbSkipRecords : List (List Char) := %s
+def crystFields : List CField := [
+    %s]
+def modelStart : Nat := %d
+def modelStop : Nat := %d
+
+def pdbX : PdbLayoutX :=
+  { base := pdb, skipRecords := pdbSkipRecords, crystFields := crystFields, modelStart := modelStart,
+    modelStop := modelStop }
+
+/-- the velocity part of an atom line of `write_gro` for the tabulated values of `precision` -/
+def groVelFmts : List (Nat × List Seg) := [
+%s]
+
+end C16.Layout
+''' % (llist(res['pdbSkipRecords']), cf, res['modelStart'], res['modelStop'],
+       ',\n'.join('  (%d, %s)' % (p, lsegs(sg)) for p, sg in res['groVelFmts']))
 
 
 def render_lean(res):
@@ -444,10 +560,21 @@ def groTypes : List RTy := [%s]
 def groWidths : List Nat := [%s]
 def groVelNames : List FName := [%s]
 def groDotFrom : Nat := %d
+def groCountFrom : Nat := %d
 
 def gro : GroLayout :=
   { atomFmt := groFmt, fieldNames := groNames, fieldTypes := groTypes, fieldWidths := groWidths,
-    velNames := groVelNames, velTypes := [.float, .float, .float], dotFrom := groDotFrom }
+    velNames := groVelNames, velTypes := [.float, .float, .float], dotFrom := groDotFrom,
+    countFrom := groCountFrom }
+
+/-! the format-spec STRINGS of the replacement fields, exactly as they stand in the source: the `Spec`s
+above are what `C16.specOfString` (regular expression of TruncFormatter) makes of them — `layout_specs_parse` -/
+def atomRaw : List (List Char) := %s
+def terRaw : List (List Char) := %s
+def conectRaw : List Char := %s
+def groRaw : List (List Char) := %s
+def groFmtsRaw : List (Nat × List (List Char)) := [
+%s]
 
 end C16.Layout
 ''' % (lsegs(res['atomFmt']), lsegs(res['terFmt']), lchars(res['conectPrefix']), lspec(res['conectNum']),
@@ -455,4 +582,6 @@ end C16.Layout
        lsegs(res['groFmt']), ',\n'.join('  (%d, %s)' % (p, lsegs(sg)) for p, sg in res['groFmts']),
        res['groDefaultPrecision'], ', '.join('.' + n for n in res['groNames']),
        ', '.join('.' + t for t in res['groTypes']), ', '.join(str(w) for w in res['groWidths']),
-       ', '.join('.' + n for n in res['groVelNames']), res['groDotFrom'])
+       ', '.join('.' + n for n in res['groVelNames']), res['groDotFrom'], res['groCountFrom'],
+       llist(res['raw']['atom']), llist(res['raw']['ter']), lchars(res['raw']['conect']), llist(res['raw']['gro']),
+       ',\n'.join('  (%d, %s)' % (p, llist(r)) for p, r in res['raw']['groFmts']))
